@@ -248,9 +248,10 @@ func genWindow(out *Output, rng *Rng, nRandom int, pairStride int) {
 	zones := []*time.Location{time.UTC, time.FixedZone("plus14", 14*3600), time.FixedZone("minus12", -12*3600)}
 	bounds := append([]time.Time{{}}, dates...)
 	seen := map[string]bool{}
+	legacyNames := lint.GlobalRegistry().CertificateLints().Names()
 	emit := func(eff, ineff, t time.Time) {
-		kinds := []string{"cert", "crl", "ocsp"}
-		k := kinds[rng.Intn(3)]
+		kinds := []string{"cert", "crl", "ocsp", "legacy", "legacy-registry"}
+		k := kinds[rng.Intn(5)]
 		md := lint.LintMetadata{EffectiveDate: eff, IneffectiveDate: ineff}
 		var got bool
 		salt := rng.Intn(4)
@@ -261,6 +262,18 @@ func genWindow(out *Output, rng *Rng, nRandom int, pairStride int) {
 			got = (&lint.RevocationListLint{LintMetadata: md}).CheckEffective(decoyCRL(t, salt))
 		case "ocsp":
 			got = (&lint.OcspResponseLint{LintMetadata: md}).CheckEffective(decoyOCSP(t, salt))
+		case "legacy":
+			// the older Lint type, still exported: built from a literal ...
+			got = (&lint.Lint{Name: "e_legacy", EffectiveDate: eff, IneffectiveDate: ineff}).CheckEffective(&x509.Certificate{NotBefore: t, NotAfter: decoyDate(t, salt)})
+		case "legacy-registry":
+			// ... and as handed out by the registry (a private copy), with its window changed by the caller
+			if lg := lint.GlobalRegistry().ByName(legacyNames[rng.Intn(len(legacyNames))]); lg != nil {
+				lg.EffectiveDate, lg.IneffectiveDate = eff, ineff
+				got = lg.CheckEffective(&x509.Certificate{NotBefore: t, NotAfter: decoyDate(t, salt)})
+			} else {
+				k = "cert"
+				got = (&lint.CertificateLint{LintMetadata: md}).CheckEffective(&x509.Certificate{NotBefore: t, NotAfter: decoyDate(t, salt)})
+			}
 		}
 		term := fmt.Sprintf("(%s, %s, %s, %s)", instantZ(eff), instantZ(ineff), instantZ(t), cqBool(got))
 		if !seen[term] {
